@@ -7,7 +7,7 @@ byte offset inside the first packets of each direction, and under seeded random 
 Oracle: closed flags, disconnect-hook counters, tables of lent objects, outcome of every request (right value /
 EOFError / never a foreign value), double close, deadlock detector.
 """
-from rv import vnet, vsched
+from rv import refcodec as rc, vnet, vsched
 
 PROPERTY = "C11"
 LEVEL = "fault_enumeration"
@@ -16,7 +16,9 @@ RULE = ("workloads: sync calls; async calls collected after the fault; callbacks
         "not serve while the other side closes; close by A / by B inside a handler / by both at once / with a before_closed hook that "
         "talks to the peer; a close request served before the end-of-stream is delivered (held delivery). faults: for every workload EVERY individual transport call (poll, read, write) of either side fails once "
         "(kinds: transport error at the call; peer vanished just before the call), every byte offset of the first 160 bytes of "
-        "each direction is cut once, with EPIPE semantics on and off. distinct = (workload, side, call index, operation, kind) "
+        "each direction is cut once, with EPIPE semantics on and off; plus the operating system's own end-of-stream: a victim on a real "
+        "PipeStream pair / socketpair whose peer (raw descriptors) vanishes by close or half-shutdown while the victim is idle in "
+        "serve_all() or inside a handler waiting for the peer (verdict on state and on the number of polls after the peer is gone). distinct = (workload, side, call index, operation, kind) "
         "or (workload, direction, offset); non-trivial = the fault fired")
 ASSUMPTIONS = ["in-memory transport faults stand for socket/pipe failures (the real streams turn those into close + EOFError: C05)",
                "every request is issued with an infinite timeout, so 'hangs' is decided by the scheduler's deadlock detector",
@@ -359,10 +361,175 @@ def told_to_close(ctx):
         ctx.violation("C11/told-to-close/hook-ran-twice", "disconnect hook ran twice")
 
 
+def real_streams(ctx):
+    """the same clauses over the operating system's own descriptors: a victim Connection on a PipeStream pair / a socketpair,
+    its peer played by the harness on raw descriptors (independent codec), which VANISHES without a CLOSE request - descriptors
+    closed, or (sockets) only the sending half shut down - while the victim is (a) idle in serve_all(), (b) inside a request
+    handler that waits for the peer's answer to a callback. Verdicts are on state and on logical counts: after the peer is gone
+    the victim must be closed after a bounded NUMBER of polls of its stream (a transport that keeps reporting 'nothing to
+    read' at end-of-stream makes it spin for ever), its disconnect hook must have run once, nothing may stay lent, the serving
+    thread must have ended. The wall clock only bounds the wait (inconclusive)."""
+    import os
+    import socket
+    import threading
+    import time
+    import rpyc
+    from rpyc.core import stream as stream_mod
+    from rpyc.core.channel import Channel
+    H = rc.HANDLERS
+    for transport in ("pipes", "socketpair"):
+        for state in ("idle", "in_callback"):
+            for how in (("close",) if transport == "pipes" else ("close", "shutdown_wr")):
+                stats = dict(connect=0, disconnect=0)
+
+                class Svc(rpyc.Service):
+                    def on_connect(self, conn):
+                        stats["connect"] += 1
+
+                    def on_disconnect(self, conn):
+                        stats["disconnect"] += 1
+
+                    def exposed_make(self):
+                        return [1, 2, 3]
+
+                    def exposed_call_me_back(self, fn):
+                        try:
+                            return fn(1)
+                        except EOFError:
+                            stats["callback_eof"] = stats.get("callback_eof", 0) + 1
+                            raise
+                if transport == "pipes":
+                    r1, w1 = os.pipe()      # harness -> victim
+                    r2, w2 = os.pipe()      # victim -> harness
+                    vstream = stream_mod.PipeStream(os.fdopen(r1, "rb", 0), os.fdopen(w2, "wb", 0))
+                    h_in, h_out = r2, w1
+                    hsock = None
+                else:
+                    s1, hsock = socket.socketpair()
+                    vstream = stream_mod.SocketStream(s1)
+                    h_in = h_out = hsock.fileno()
+                polls = dict(n=0, after=0, vanished=False)
+                orig_poll = stream_mod.Stream.poll
+
+                def counting_poll(self, timeout, _orig=orig_poll, _v=vstream, _p=polls):
+                    if self is _v:
+                        _p["n"] += 1
+                        if _p["vanished"]:
+                            _p["after"] += 1
+                            if _p["after"] > 2000:
+                                # enough evidence; stop the spin so that the process is not left with a busy thread
+                                raise EOFError("harness: end of observation")
+                    return _orig(self, timeout)
+                stream_mod.Stream.poll = counting_poll
+                victim = Svc()._connect(Channel(vstream), {"sync_request_timeout": None})
+                end = []
+
+                def serve(victim=victim, end=end):
+                    try:
+                        victim.serve_all()
+                    except BaseException as e:
+                        end.append(e)
+                th = threading.Thread(target=serve, daemon=True, name="rv-real-victim")
+                th.start()
+                fp = rc.FrameParser()
+                pending = []
+
+                def h_send(kind, seq, args):
+                    data = rc.msg(kind, seq, args)
+                    while data:
+                        n = os.write(h_out, data)
+                        data = data[n:]
+
+                def h_recv(deadline=10.0):
+                    t0 = time.time()
+                    import select
+                    while True:
+                        if pending:
+                            return rc.parse_message(pending.pop(0)[0])
+                        if time.time() - t0 > deadline:
+                            return None
+                        if select.select([h_in], [], [], 0.5)[0]:
+                            chunk = os.read(h_in, 65536)
+                            if not chunk:
+                                return None
+                            pending.extend(fp.feed(chunk))
+                wit = dict(family="real-streams", transport=transport, victim_state=state, how=how)
+                try:
+                    h_send(rc.MSG_REQUEST, 1, (H["GETROOT"], (rc.LABEL_VALUE, ())))
+                    m = h_recv()
+                    if not m or m["kind"] != rc.MSG_REPLY:
+                        ctx.inconclusive("real-streams: no GETROOT reply (%r)" % (m,))
+                        continue
+                    root = (rc.LABEL_LOCAL_REF, tuple(m["args"][1]))
+                    h_send(rc.MSG_REQUEST, 2, (H["CALLATTR"], (rc.LABEL_TUPLE, (root, (rc.LABEL_VALUE, "make"), (rc.LABEL_VALUE, ()), (rc.LABEL_VALUE, ())))))
+                    m = h_recv()       # the victim now lends a list to the peer
+                    lent_before = len(victim._local_objects._dict)
+                    if state == "in_callback":
+                        fn = (rc.LABEL_REMOTE_REF, ("builtins.function", 4242, 4343))
+                        h_send(rc.MSG_REQUEST, 3, (H["CALLATTR"], (rc.LABEL_TUPLE, (root, (rc.LABEL_VALUE, "call_me_back"),
+                                                                         (rc.LABEL_TUPLE, (fn,)), (rc.LABEL_VALUE, ())))))
+                        m = h_recv()   # the victim's CALL request for our function: never answered
+                        if not m or m["kind"] != rc.MSG_REQUEST:
+                            ctx.inconclusive("real-streams: victim did not call back (%r)" % (m,))
+                    polls["vanished"] = True
+                    if hsock is not None:
+                        if how == "shutdown_wr":
+                            hsock.shutdown(socket.SHUT_WR)
+                        else:
+                            hsock.close()
+                            hsock = None
+                    else:
+                        os.close(h_out)
+                        os.close(h_in)
+                        h_in = h_out = None
+                    t0 = time.time()
+                    while time.time() - t0 < 20 and th.is_alive() and polls["after"] <= 2000:
+                        time.sleep(0.01)
+                    ctx.case(("real", transport, state, how), nontrivial=True)
+                    ctx.count("real_stream_endings")
+                    ctx.maximum("polls_after_peer_vanished", polls["after"])
+                    if polls["after"] > 2000 or (polls["after"] > 50 and not victim.closed):
+                        ctx.violation("C11/real/%s/%s/end-of-stream-never-noticed" % (transport, state), "the peer vanished (%s) and the victim polled its stream %d "
+                                      "more times without ever meeting end-of-stream: it is not closed (closed=%s), hook ran %d times, %d objects still lent" % (
+                                          how, polls["after"], victim.closed, stats["disconnect"], len(victim._local_objects._dict)), wit)
+                        continue
+                    if th.is_alive():
+                        ctx.inconclusive("real-streams: victim thread still alive after 20 s with only %d polls (%s/%s/%s)" % (polls["after"], transport, state, how))
+                        continue
+                    if not victim.closed:
+                        ctx.violation("C11/real/%s/%s/not-closed" % (transport, state), "serving ended (%r) but the connection does not report closed" % (end[:1],), wit)
+                    if stats["disconnect"] != 1:
+                        ctx.violation("C11/real/%s/%s/hook-count" % (transport, state), "disconnect hook ran %d times" % stats["disconnect"], wit)
+                    if len(victim._local_objects._dict):
+                        ctx.violation("C11/real/%s/%s/objects-still-lent" % (transport, state), "%d objects still lent after the end (before: %d)" % (
+                            len(victim._local_objects._dict), lent_before), wit)
+                    if state == "in_callback" and not stats.get("callback_eof"):
+                        ctx.violation("C11/real/%s/%s/pending-request-not-failed" % (transport, state), "the handler waiting for the peer's answer did not get EOFError", wit)
+                finally:
+                    stream_mod.Stream.poll = orig_poll
+                    for fd in (h_in, h_out) if hsock is None and transport == "pipes" else ():
+                        if fd is not None:
+                            try:
+                                os.close(fd)
+                            except OSError:
+                                pass
+                    if hsock is not None:
+                        hsock.close()
+                    try:
+                        victim.close()
+                    except BaseException:
+                        pass
+                    th.join(5)
+
+
 def run(ctx):
     rng = ctx.rng
     jobs = []
     told_to_close(ctx)
+    if ctx.shard[0] == 0:
+        real_streams(ctx)
+        if ctx.enough():
+            return
     for w in WORKLOADS:
         for epipe in (False, True):
             cen = Run(w, epipe=epipe).run()
